@@ -15,7 +15,7 @@ import (
 
 func genC03Plan(r *sim.Rng, tier string) AdmPlan {
 	var pl AdmPlan
-	pl.Conf = LalConf{ApiEnable: true, FlvEnable: true, RtmpGop: r.Intn(2), FlvGop: r.Intn(2)}
+	pl.Conf = LalConf{ApiEnable: true, FlvEnable: true, RtspEnable: true, RtmpGop: r.Intn(2), FlvGop: r.Intn(2)}
 	pl.Sched = GenSched(r.Fork("sched"), tier == "thorough")
 	pl.Sched.Preempt = r.Intn(7)
 	if r.Bool(0.5) {
@@ -34,6 +34,8 @@ func genC03Plan(r *sim.Rng, tier string) AdmPlan {
 		kind := "rtmp_pub"
 		if r.Bool(0.2) {
 			kind = "custom_pub"
+		} else if r.Bool(0.25) {
+			kind = "rtsp_pub"
 		}
 		st := 0
 		if pl.Streams > 1 && r.Bool(0.3) {
